@@ -4,6 +4,7 @@
 -/
 import CedarProofs.Prefix
 import CedarProofs.IncrPrefix
+import CedarProofs.TypedPrefix
 
 namespace Cedar.C02
 
@@ -249,5 +250,73 @@ theorem reflection_rejected :
     (match A.sendAll [([1, 2], 1)] with
      | .ok (_, fs) => Stream.deliver A fs
      | .error _ => [[0]]) = [] := by decide
+
+/-! ### The typed layer's receive path
+
+`Message.ensureData` / `Message.GetRemainingBytes` pull frames with `ReceiveFrameWithEnd` and end
+the message at the first frame whose end flag is non-zero — any of 1..10, not only 1
+(`Stream.recvRestAux`). -/
+
+/-- **recv_prefix_typed** (fresh session): under the adversary of `recv_prefix`, what the typed
+    layer's message loop hands the application before its first error is a prefix of the messages
+    sent AS THE TYPED LAYER DELIMITS THEM (`messagesOfT`: a message ends at the first non-zero end
+    flag), for every send history — whatever flags the sender used — and every rewriting of the
+    wire; no forged, replayed, re-flagged, reflected or truncated frame ends, extends or starts a
+    message. -/
+theorem recv_prefix_typed (S S' R R' : Stream) (k : Nat) (ivS ivR : IV) (ops opsR : List SendOp)
+    (sent own w : List WireFrame) (hivS : ivS.w0 < 2^32) (hivR : ivR.w0 < 2^32)
+    (hsep : ivS.tail ≠ ivR.tail)
+    (hsend : (S.setKey k ivS).sendAll ops = .ok (S', sent))
+    (hown : (R.setKey k ivR).sendAll opsR = .ok (R', own))
+    (hadv : AdvWire k sent own w) (n : Nat) :
+    Stream.deliverRestFuel n (R.setKey k ivR) w <+: messagesOfT [] ops := by
+  obtain ⟨items, hsent, hops, hlim, _, _⟩ :=
+    sendAll_spec ops _ S' 0 sent (setKey_sendInv S k ivS) hsend
+  obtain ⟨itemsR, hownE, _, _, _, _⟩ :=
+    sendAll_spec opsR _ R' 0 own (setKey_sendInv R k ivR) hown
+  have hr : RecvInv (R.setKey k ivR) k ivS 0 0 :=
+    ⟨rfl, rfl, rfl, by simp [Stream.setKey], fun h => absurd rfl h⟩
+  have := deliverRest_prefix (dg := (S.dig.fs, S.dig.fr)) (ownIV := ivR) hivS hlim n
+    (R.setKey k ivR) w 0 (Nat.zero_le _) hr (fun _ => ⟨rfl, hivR⟩)
+    (advWire_advFrame (dgR := (R.dig.fs, R.dig.fr)) hsep hsent hownE hadv)
+  simpa [hops] using this
+
+/-- with the end flags the sending API produces (0 / 1) the typed layer's messages are the
+    messages sent: the same prefix statement as `recv_prefix`, boundaries intact -/
+theorem recv_prefix_typed_01 (S S' R R' : Stream) (k : Nat) (ivS ivR : IV) (ops opsR : List SendOp)
+    (sent own w : List WireFrame) (hivS : ivS.w0 < 2^32) (hivR : ivR.w0 < 2^32)
+    (hsep : ivS.tail ≠ ivR.tail) (hfl : ∀ op ∈ ops, op.2 ≤ 1)
+    (hsend : (S.setKey k ivS).sendAll ops = .ok (S', sent))
+    (hown : (R.setKey k ivR).sendAll opsR = .ok (R', own))
+    (hadv : AdvWire k sent own w) (n : Nat) :
+    Stream.deliverRestFuel n (R.setKey k ivR) w <+: messagesOf [] ops := by
+  rw [← messagesOfT_eq ops [] hfl]
+  exact recv_prefix_typed S S' R R' k ivS ivR ops opsR sent own w hivS hivR hsep hsend hown hadv n
+
+/-- **recv_prefix_typed_midstream**: the same from any reachable state of an established session -/
+theorem recv_prefix_typed_midstream (S S' R R' : Stream) (k : Nat) (iv ivR : IV) (dg dgR : Digest × Digest) (c0 cR : Nat)
+    (ops opsR : List SendOp) (sent own w : List WireFrame) (hiv : iv.w0 < 2^32) (hivR : ivR.w0 < 2^32)
+    (hsep : iv.tail ≠ ivR.tail)
+    (hS : SendInv S k iv dg c0) (hR : RecvInv R k iv c0 0) (hRs : SendInv R k ivR dgR cR)
+    (hsend : S.sendAll ops = .ok (S', sent)) (hown : R.sendAll opsR = .ok (R', own))
+    (hadv : AdvWire k sent own w) (n : Nat) :
+    Stream.deliverRestFuel n R w <+: messagesOfT [] ops := by
+  obtain ⟨items, hsent, hops, hlim, _, _⟩ := sendAll_spec ops S S' c0 sent hS hsend
+  obtain ⟨itemsR, hownE, _, _, _, _⟩ := sendAll_spec opsR R R' cR own hRs hown
+  have := deliverRest_prefix (dg := dg) (ownIV := ivR) hiv hlim n R w 0 (Nat.zero_le _) hR (fun _ => ⟨hRs.iv, hivR⟩)
+    (advWire_advFrame hsep hsent hownE hadv)
+  simpa [hops] using this
+
+/-! Non-vacuity: the typed loop on the demo wire delivers all three messages; with the middle frame
+    of the first message dropped, nothing; with the LAST frame's flag rewritten 1 -> 7 by the
+    adversary the frame is rejected (the flag is in the AAD), so flags 2..10 cannot be forged into
+    message ends; a sender that itself uses flag 7 ends a message there. -/
+example : Stream.deliverRestFuel 9 (({} : Stream).setKey 7 ⟨5, []⟩) demoSent = [[1,2,3], [], [9,9]] := by decide
+example : Stream.deliverRestFuel 9 (({} : Stream).setKey 7 ⟨5, []⟩) (demoSent.eraseIdx 1) = [] := by decide
+example : Stream.deliverRestFuel 9 (({} : Stream).setKey 7 ⟨5, []⟩)
+    (demoSent.take 3 ++ (demoSent.drop 3).map (fun f => { f with flag := 7 })) = [[1,2,3], []] := by decide
+example : (match ((({} : Stream).setKey 7 ivA).sendAll [([1], 0), ([2], 7), ([3], 1)]) with
+    | .ok (_, fs) => Stream.deliverRestFuel 9 (({} : Stream).setKey 7 ⟨5, []⟩) fs
+    | .error _ => []) = [[1, 2], [3]] := by decide
 
 end Cedar.C02
